@@ -51,6 +51,8 @@ def cells_for(tier, seed):
     # one large-N interior cell in every tier: the finite-particle allowance is small there, which is what lets the paired
     # trimmed-vs-untrimmed comparison (and the absolute test) resolve a bias of a few per cent
     cells.append(ens.make_cell(int(rng.integers(0, 2**31 - 1)), family="gauss", kernel="tpcn", clustering=False, d=1, N=256))
+    # one cell in volume-variation mode with a tight target (schedule stays / takes tiny steps)
+    cells.append(ens.make_cell(int(rng.integers(0, 2**31 - 1)), family="gauss", kernel="rwm", clustering=False, d=2, N=64, vv=0.05))
     return cells
 
 
